@@ -44,8 +44,8 @@ func init() {
 	checks["C12"] = &CheckDef{
 		Pkgs:        []string{"./control"},
 		Splice:      true,
-		Harness:     []string{"control:Verif_C12_single_prefix"},
-		MaxIter:     400,
+		Harness:     []string{"control:Verif_C12_single_prefix", "control:Verif_C12_dedup"},
+		MaxIter:     2000,
 		Level:       "other",
 		LevelText:   "For one prefix of any family with all 128 address bits and all 128 probe bits symbolic, the solver shows that the real userspace trie (NewTrieFromPrefixes/HasPrefix/Prefix2bin128) and the real kernel LPM key (cidrToBpfLpmKey, spliced from bpf_utils.go) both decide exactly CIDR containment on the IPv4-mapped form. This is a statement about every address and probe inside the bound, which tests can only sample; it is bounded (lengths listed per tier) and therefore not a proof.",
 		LevelNote:   "Trusted: go/ssa, the executor, z3, the bitwise containment spec in the harness, the kernel LPM trie's longest-prefix rule (modelled as 'first PrefixLen bits of the key bytes equal'), a warm byte-buffer pool. Quick tier: boundary prefix lengths only; thorough: all lengths 0..128 / 0..32.",
@@ -248,17 +248,17 @@ func init() {
 		QuickBudget: 10 * time.Minute, ThoroughBudget: 20 * time.Minute,
 	}
 	checks["C17"] = &CheckDef{
-		Pkgs: []string{"./component/dns", "./common"},
-		Harness: []string{"component/dns:Verif_C17_dns_capacity", "common:Verif_C17_include_scope"},
+		Pkgs: []string{"./component/dns", "./common", "./config"},
+		Harness: []string{"component/dns:Verif_C17_dns_capacity", "common:Verif_C17_include_scope", "config:Verif_C17_include_merge"},
 		NoMergeFns: []string{"filepathlite.", "path/filepath."},
 		MaxIter: 2000,
 		Level:   "other",
-		LevelText: "Two of the property's clauses are within reach of the executor and are checked on the real code. (1) Rule programs beyond the supported size are rejected with an error, never a crash: the real DNS request-routing compiler (NewRequestMatcherBuilder, NormalizedRequestRoutingProgram.Lower, addQName / addQType, Build with the real AhocorasickSlimtrie) is run on programs of 29..34 rules around the match-set limit (the limit variable lowered to 32), the kinds of the rules next to the limit symbolic: no panic; a qname rule at an index the matcher cannot hold makes Build return an error; an accepted program routes a name only its last qname rule lists by that rule and an arbitrary (symbolic) query type by the first rule that matches it. (2) An included file is never read from outside the entry configuration directory: common.EnsureFileInSubDir (with the real filepath.Dir / Rel / Clean) on every path of 5 symbolic bytes over {a . /} below /etc/dae: acceptance implies that the file's directory, resolved lexically by an independent reference, is /etc/dae or below. A genuine defect was found while building this check and repaired (see known_findings.json): a domain/qname rule beyond the limit crashed start-up and reload.",
-		LevelNote: "NOT covered, and stated as outside the claim: the text -> parse tree -> sections step (ANTLR's ATN interpreter over generated tables is beyond the executor: thousands of table-driven states per token), the reflection-driven typed configuration (package reflect is not encoded), include merging order and cycle detection (file system). The claim is therefore partial: the capacity and include-scope clauses only.",
+		LevelText: "Three of the property's clauses are within reach of the executor and are checked on the real code. (1) Rule programs beyond the supported size are rejected with an error, never a crash: the real DNS request-routing compiler (NewRequestMatcherBuilder, NormalizedRequestRoutingProgram.Lower, addQName / addQType, Build with the real AhocorasickSlimtrie) is run on programs of 29..34 rules around the match-set limit (the limit variable lowered to 32), the kinds of the rules next to the limit symbolic: no panic; a qname rule at an index the matcher cannot hold makes Build return an error; an accepted program routes a name only its last qname rule lists by that rule and an arbitrary (symbolic) query type by the first rule that matches it. (2) An included file is never read from outside the entry configuration directory: common.EnsureFileInSubDir (with the real filepath.Dir / Rel / Clean) on every path of 5 symbolic bytes over {a . /} below /etc/dae: acceptance implies that the file's directory, resolved lexically by an independent reference, is /etc/dae or below. (3) Included files are merged deterministically, cycles and escapes are rejected: the real config.Merger (Merge, dfsMerge, readEntry with its cycle / suffix / scope checks, unsqueezeEntries, convertSectionsToMap, mergeItems) over a modelled directory tree and a modelled parser (a file's text is its name; parsing yields the sections the model holds): an entry with two routing blocks, a relative include, a glob over a sub-directory and a nested include, optionally closing a cycle, reaching out of the directory (relative or absolute) or naming a non-.dae file: the merged routing items are the including file's in written order followed by each included file's depth first in listed order; a cycle is ErrCircularInclude; only .dae files inside the directory are ever opened. This part runs on concrete data (five include graphs): it exercises the real code in the executor but the solver has nothing to decide. A genuine defect was found while building this check and repaired (see known_findings.json): a domain/qname rule beyond the limit crashed start-up and reload.",
+		LevelNote: "NOT covered, and stated as outside the claim: the text -> parse tree -> sections step (ANTLR's ATN interpreter over generated tables is beyond the executor: thousands of table-driven states per token), the reflection-driven typed configuration (package reflect is not encoded). The claim is therefore partial: the capacity, include-scope and include-merge clauses only.",
 		Technique: techniqueText,
 		Explanation: "Bounded symbolic execution of rule-program compilation at the match-set limit and of the include-scope test.",
-		Bounds: map[string]string{"quick": "29..34 rules + fallback, limit 32, kinds of rules 28.. symbolic (qname/qtype), symbolic 16-bit query type; include paths: 5 symbolic bytes over {a . /} under /etc/dae", "thorough": "include paths of 7 symbolic bytes"},
-		Outside: []string{"config text -> AST (ANTLR)", "config.SectionParser / ParamParser (reflection)", "Merger.dfsMerge: order, cycles, globbing, permissions", "symlinks (EnsureFileInSubDir is lexical)", "the main routing section's kernel-side capacity (rejected by the kernel map in production)"},
+		Bounds: map[string]string{"quick": "29..34 rules + fallback, limit 32, kinds of rules 28.. symbolic (qname/qtype), symbolic 16-bit query type; include paths: 5 symbolic bytes over {a . /} under /etc/dae; include merge: 5 concrete include graphs over 7 model files", "thorough": "include paths of 7 symbolic bytes"},
+		Outside: []string{"config text -> AST (ANTLR)", "config.SectionParser / ParamParser (reflection)", "file permissions check and real globbing in the merger (modelled)", "symlinks (EnsureFileInSubDir is lexical)", "the main routing section's kernel-side capacity (rejected by the kernel map in production)"},
 		Assumptions: []string{"consts.MaxMatchSetLen lowered to 32 (it is a variable; all tables are sized from it)"},
 		QuickBudget: 10 * time.Minute, ThoroughBudget: 20 * time.Minute,
 	}
